@@ -147,6 +147,49 @@ def memory_file_own_position():
     return True
 
 
+def memory_rename_guards():
+    """the refusals of `MemoryPathIO.rename`, in order, as (test, exception) texts - up to the first statement that
+    changes the tree"""
+    src_dir = os.path.join(os.environ.get("AIOFTP_REPO", "/repo"), "src")
+    with open(os.path.join(src_dir, "aioftp", "pathio.py")) as f:
+        tree = ast.parse(f.read())
+    mem = next((n for n in tree.body if isinstance(n, ast.ClassDef) and n.name == "MemoryPathIO"), None)
+    fn = next((n for n in (mem.body if mem else []) if isinstance(n, ast.AsyncFunctionDef) and n.name == "rename"), None)
+    out = []
+    if fn is None:
+        return out
+
+    def walk(stmts):
+        for st in stmts:
+            if isinstance(st, ast.If) and len(st.body) == 1 and isinstance(st.body[0], ast.Raise) and not st.orelse:
+                exc = st.body[0].exc
+                name = ast.unparse(exc.func) if isinstance(exc, ast.Call) else ast.unparse(exc)
+                out.append((ast.unparse(st.test), name))
+            elif isinstance(st, ast.If):
+                out.append(("if " + ast.unparse(st.test), ""))
+                if not walk(st.body):
+                    return False
+            elif isinstance(st, ast.Assign) and isinstance(st.value, ast.Call) and ast.unparse(st.value.func) == "self.get_node":
+                continue
+            elif isinstance(st, ast.Expr) and isinstance(st.value, ast.Constant):
+                continue
+            else:
+                return False  # the first statement that does something else: the guards are over
+        return True
+
+    walk(fn.body)
+    return out
+
+
+MEMORY_RENAME_GUARDS = [
+    ("snode is None", "FileNotFoundError"),
+    ("if source != destination", ""),
+    ("dparent is None", "FileNotFoundError"),
+    ("dparent.type != 'dir'", "NotADirectoryError"),
+    ("source in destination.parents", "OSError"),
+]
+
+
 def _nats(s):
     return "[" + ", ".join(str(ord(c)) for c in s) + "]"
 
@@ -199,6 +242,11 @@ def gen_pathio():
         "/-- `MemoryPathIO._open` returns, on every path, a fresh `MemoryFile`, whose `seek`/`read`/`write` work from the",
         "    file's own position (exact shapes checked by the translator; any other shape gives `false`) -/",
         "def memoryFileOwnPosition : Bool := %s" % ("true" if memory_file_own_position() else "false"),
+        "",
+        "/-- `MemoryPathIO.rename` refuses, before it changes anything and in this order: a missing source; then, for",
+        "    different paths, a missing destination parent, a destination parent that is no directory, and a source",
+        "    that is among the destination's parents (`source in destination.parents`: at ANY depth).  Found: %s -/" % repr(memory_rename_guards()).replace("-/", "- /"),
+        "def memoryRenameGuardsAsModelled : Bool := %s" % ("true" if memory_rename_guards() == MEMORY_RENAME_GUARDS else "false"),
         "",
         "end Generated.PathIO",
         "",
